@@ -80,6 +80,10 @@ func (h *Header) Unpack(buf []byte) error {
 	lengthByte := buf[0]
 	if lengthByte == longPacketFlag {
 		// Long packet (>255B)
+		if len(buf) < longHeaderLength {
+			return fmt.Errorf("bad packet length: expected >=%d, got %d",
+				longHeaderLength, len(buf))
+		}
 		h.pktLength = binary.BigEndian.Uint16(buf[1:3])
 		h.pktType = PacketType(buf[3])
 	} else {
